@@ -1269,6 +1269,13 @@ func readMultipartForm(r io.Reader, boundary string, size, maxInMemoryFileSize i
 	if err != nil {
 		return nil, fmt.Errorf("cannot read multipart/form-data body: %w", err)
 	}
+	// ReadForm stops at the closing boundary. Whatever follows it within size
+	// (the epilogue) still belongs to this body: consume it, otherwise it is
+	// taken for the beginning of the next message on the connection.
+	if _, err = io.Copy(io.Discard, lr); err != nil {
+		_ = f.RemoveAll()
+		return nil, fmt.Errorf("cannot read multipart/form-data body: %w", err)
+	}
 	return f, nil
 }
 
